@@ -451,6 +451,33 @@ def validate_trace(module, cfg, trace_path, *, name, timeout=1800, max_divergent
         remaining = remaining[idx + 1:]
         if len(v.divergent) + len(v.violations) >= max_divergent:
             break
+    # Too many divergent walks to triage one by one: judge everything that is left in observe mode only,
+    # so that a violating walk cannot hide behind benign divergences.
+    bulk = 0
+    while remaining and (len(v.divergent) + len(v.violations) >= max_divergent) and bulk < 6:
+        bulk += 1
+        pb = os.path.join(wd, "bulk-observe-%d.ndjson" % bulk)
+        with open(pb, "w") as f:
+            for w in remaining:
+                f.write("\n".join(w) + "\n")
+        n = sum(len(w) for w in remaining)
+        kind3, r3, at3 = _validate_file(module, cfg, pb, n, name + "-bulk", False, timeout, extra_env)
+        if kind3 == "accepted":
+            v.unchecked_strict = getattr(v, "unchecked_strict", 0) + len(remaining)
+            break
+        if kind3 == "violated":
+            idx = _violation_walk_index(r3, remaining)
+            if idx is None:
+                raise ToolError("cannot locate violating walk (bulk)")
+            bad = remaining[idx]
+            pos = sum(len(w) for w in remaining[:idx])
+            ls = re.findall(r"/\\ l = (\d+)", r3.out)
+            if ls:
+                bad = bad[:max(2, int(ls[-1]) - 1 - pos)]
+            v.violations.append((bad, r3.violated, ""))
+            remaining = remaining[idx + 1:]
+            continue
+        raise ToolError("observe-mode rejected a trace at event %s (bulk)" % at3)
     return v
 
 
